@@ -10,7 +10,10 @@
       taurex/model/transmission.py           path_integral (the loop over the contribution LIST with its break),
                                              compute_path_length_old, compute_path_length, compute_absorption
       taurex/util/geometry.py                parallel_vector
-      taurex/model/simplemodel.py            SimpleForwardModel.model_contrib (the per-contribution loop and its dict)
+      taurex/model/simplemodel.py            SimpleForwardModel.model_contrib (the per-contribution loop and its dict),
+                                             .model_full_contrib (the per-component loop driven by the generator
+                                             `prepare_each`; the three `prepare_each` once more as the list of what
+                                             `self.sigma_xsec` holds at each yield: `*_published`)
   The theorems state, for EVERY carrier (induction over the loops, no algebra), that each regenerated definition is the
   model function of `TaurexModel/Sigma.lean` / `TaurexModel/Transmission.lean` that the C03 theorems are about and
   `driver_c03` executes.
@@ -489,6 +492,64 @@ theorem src_model_contrib {ι : Type} (cs : List ι)
     Gen.SrcC03.model_contrib cs contribute dz dens n nW name grid newMethod planetPaths prepare rp rs zb z
       = (grid, dictFill (fun c => name (prepare c))
           (fun c => Gen.SrcC03.path_integral nW [prepare c] contribute dz dens n newMethod planetPaths rp rs zb z) cs []) :=
+  rfl
+end
+
+/-! ### `model_full_contrib`: every COMPONENT of every contribution run alone, the generator protocol explicit -/
+
+/-- `for g in gs: xs.append(f g)` -/
+theorem foldl_append_map {β γ : Type} (f : β → γ) (l : List β) (init : List γ) :
+    l.foldl (fun acc g => acc ++ [f g]) init = init ++ l.map f := by
+  induction l generalizing init with
+  | nil => simp
+  | cons x t ih => simp [ih]
+
+section
+variable {α : Type} [Add α] [Sub α] [Mul α] [Div α] [Neg α] [LT α] [LE α]
+  [DecidableLT α] [DecidableLE α] [OfNat α 0] [OfNat α 1] [OfNat α 2] [OfNat α 10] [Transc α]
+
+/-- what the suspended `CIAContribution.prepare_each` has published in `self.sigma_xsec` at each yield IS the yielded
+    component -/
+theorem src_cia_published {ι : Type} (nL nW : Nat) (T : Nat → α) (ciaXsec : ι → α → Nat → α)
+    (mixOne mixTwo : ι → Nat → α) (pairs : List ι) :
+    Gen.SrcC03.cia_prepare_each_published nW T ciaXsec mixOne mixTwo nL pairs
+      = Gen.SrcC03.cia_prepare_each nW T ciaXsec mixOne mixTwo nL pairs := rfl
+
+theorem src_rayleigh_published {ι : Type} (nL nW : Nat) (law : ι → Nat → α) (lawDefined : ι → Bool)
+    (mix : ι → Nat → α) (molecules : List ι) :
+    Gen.SrcC03.rayleigh_prepare_each_published nW law lawDefined mix molecules nL
+      = Gen.SrcC03.rayleigh_prepare_each nW law lawDefined mix molecules nL := rfl
+
+theorem src_absorption_published {ι : Type} (nlayers nW : Nat) (T P : Nat → α) (opacity : ι → α → α → Nat → α)
+    (mix : ι → Nat → α) (gases : List ι) :
+    Gen.SrcC03.absorption_prepare_each_published nW P T gases mix nlayers opacity
+      = Gen.SrcC03.absorption_prepare_each nW P T gases mix nlayers opacity := rfl
+
+theorem src_absorption_published_shapes {ι : Type} (nlayers nW : Nat) (T P : Nat → α)
+    (opacity : ι → α → α → Nat → α) (mix : ι → Nat → α) (gases : List ι) :
+    Gen.SrcC03.absorption_prepare_each_published_shapes nW P T gases mix nlayers opacity :=
+  src_absorption_prepare_each_shapes nlayers nW T P opacity mix gases
+
+/-- `SimpleForwardModel.model_full_contrib()` (no `wngrid`): the native grid, and the dict that holds, under `contrib.name`
+    (read before the generator is created), one record per element of `contrib.prepare_each(…)`: the yielded name and what
+    the regenerated `path_integral` returns for the one-element list holding THE STATE THE CONTRIBUTION IS IN AT THAT YIELD
+    (`prepareEach c` lists the (yielded name, state at the yield) pairs: the generator is suspended while `path_integral`
+    runs, so `contrib.contribute` reads the `sigma_xsec` published before that yield) -/
+theorem src_model_full_contrib {ι : Type} (cs : List ι)
+    (contribute : ι → Nat → Nat → Nat → Nat → (Nat → α) → (Nat → Nat → α) → (Nat → α) → (Nat → Nat → α))
+    (dz dens : Nat → α) (n nW : Nat) (cname : ι → String) (grid : Nat → α) (newMethod : Bool)
+    (planetPaths : (Nat → α) → (Nat → Nat → α) → (Nat → Nat → α) → List (Nat → α))
+    (prepareEach : ι → List (String × ι)) (rp rs : α) (zb z : Nat → α) :
+    Gen.SrcC03.model_full_contrib cname cs contribute dz dens n nW grid newMethod planetPaths prepareEach rp rs zb z
+      = (grid, dictFill cname (fun c => (prepareEach c).map (fun g =>
+          (g.1, Gen.SrcC03.path_integral nW [g.2] contribute dz dens n newMethod planetPaths rp rs zb z))) cs []) := by
+  have h : ∀ c, (prepareEach c).map (fun g =>
+        (g.1, Gen.SrcC03.path_integral nW [g.2] contribute dz dens n newMethod planetPaths rp rs zb z))
+      = (prepareEach c).foldl (fun acc g => acc ++ [(g.1,
+          Gen.SrcC03.path_integral nW [g.2] contribute dz dens n newMethod planetPaths rp rs zb z)]) [] := fun c => by
+    rw [foldl_append_map]; rfl
+  unfold dictFill dictSet
+  simp only [h]
   rfl
 end
 
